@@ -267,6 +267,15 @@ def check_step(ck, rng, spec, cfg, case_key):
             pre_trial = net[-1]["before"]
     names = [n for n, _ in model.named_parameters()]
     kinds = dict(zip([f"p{i}" for i in range(len(model.kinds))], model.kinds))
+    # between the entry of step() and the first update nothing may have touched the parameters (a corrector / kernel working in place on
+    # a residual that is a parameter or a view of one would)
+    if upd:
+        same0 = all(torch.equal(before[n_], upd[0]["before"][n_]) for n_ in before)
+        ck.check(same0, "update", regime, entry, "parameters_changed_before_the_first_update",
+                 lambda: dict(wit, given={n_: before[n_].tolist() for n_ in before if before[n_].numel() <= 12},
+                              at_first_update={n_: upd[0]["before"][n_].tolist() for n_ in before if before[n_].numel() <= 12}))
+    if spec["desc"].startswith("alias_output"):
+        ck.mark("model/residual-is-a-parameter")
     ck.count("update", regime, key=case_key)
     train = [n for n, p in model.named_parameters() if p.requires_grad]
     for n, p in model.named_parameters():
@@ -345,7 +354,7 @@ def run(ck):
     rng = ck.rng("c07")
     thorough = ck.tier == "thorough"
     n = 1000 if thorough else 40
-    templates = ["pose_log", "points", "alg_log", "mixed_so3_offset", "two_outputs", "three_params", "program", "frozen"]
+    templates = ["pose_log", "points", "alg_log", "mixed_so3_offset", "two_outputs", "three_params", "program", "frozen", "alias_output"]
     for i in range(n):
         which = templates[(i + ck.shard) % len(templates)]
         spec = optmodels.make(rng, which)
@@ -356,7 +365,7 @@ def run(ck):
         check_step(ck, rng, spec, cfg, (ck.shard, i, spec["desc"]))
     for t in templates:
         ck.require("template/" + t)
-    ck.require("flags/frozen_after_construction", "flags/unfrozen_after_construction")
+    ck.require("flags/frozen_after_construction", "flags/unfrozen_after_construction", "model/residual-is-a-parameter")
     ck.require("update/group_retraction", "update/frozen_seen", "clamp/min_binds", "clamp/max_binds", "system/second_step_after_inplace_weight_update",
                "weight/given_at_init_and_step", "input/dict", "input/single")
     ck.floor("assemble", 30)
